@@ -1,19 +1,83 @@
 ------------------------------- MODULE Bearer -------------------------------
-(* Design-level check and case export for C14; definitions in BearerDefs.     *)
+(* Case space, design-level check and case export for C14; the value classes, *)
+(* Expected and Holds are in BearerDefs.                                      *)
+(* The case space is a union of products: the CORE product (every dimension   *)
+(* crossed with every other on its basic classes) and four SLICES that cross  *)
+(* the finer classes of one dimension (time, header, scope lists, challenge)  *)
+(* with the classes of the other dimensions the decision can interact with.   *)
 EXTENDS BearerDefs
 
-DesignOK == \A c \in CaseSet : Holds(c, Expected(c))
+\* every dimension against every other, on the basic classes
+Core ==
+  { Rec(h, v, r, "exact", g, gf, e, s, a, u, o) :
+      h \in HdrCore, v \in Verifiers, r \in Required, g \in Granted, gf \in {"exact", "dup"}, e \in ExpCore, s \in SkewCore,
+      a \in BOOLEAN, u \in UrlCore, o \in {"nil", "set"} }
+InCore(c) == /\ c.hdr \in HdrCore /\ c.rform = "exact" /\ c.gform \in {"exact", "dup"}
+             /\ c.exp \in ExpCore /\ c.skew \in SkewCore /\ c.url \in UrlCore
+\* all expiration classes x all skew classes, against what the expiry decision can interact with:
+\* a refused header, a refusing verifier, missing scopes (403 and 401 both mandated), AllowMissingExpiration
+TimeSlice ==
+  { Rec(h, v, sc[1], "exact", sc[2], "exact", e, s, a, "none", "set") :
+      h \in {"bearer", "upper", "basic"}, v \in {"ok", "invalid_info", "other"},
+      sc \in {<<{}, {}>>, <<{"a"}, {"a", "b"}>>, <<{"a", "b"}, {"a"}>>}, e \in Exps, s \in Skews, a \in BOOLEAN }
+\* the extra header shapes
+HdrSlice ==
+  { Rec(h, v, r, "exact", g, "exact", e, "0", a, u, o) :
+      h \in HdrExtra, v \in {"ok", "invalid", "oauth", "other"}, r \in {{}, {"a", "b"}}, g \in {{"a"}, {"a", "b"}},
+      e \in {"zero", "m1", "eq", "farfuture"}, a \in BOOLEAN, u \in UrlCore, o \in {"nil", "set"} }
+\* the forms of the two scope lists
+ScopeSlice ==
+  { Rec("bearer", "ok", r, rf, g, gf, e, s, a, u, "set") :
+      r \in Required, rf \in RForms, g \in Granted, gf \in GForms, e \in {"zero", "m1", "p1"}, s \in SkewCore,
+      a \in BOOLEAN, u \in UrlCore }
+\* the forms of the configured URL and of the required list, on requests that are challenged (and on some that are not)
+ChalSlice ==
+  { Rec(h, v, r, rf, g, "exact", e, "0", FALSE, u, "set") :
+      h \in {"absent", "bearer"}, v \in {"ok", "invalid", "oauth"}, r \in Required, rf \in RForms, g \in {{}, {"a", "b"}},
+      e \in {"m1", "p1"}, u \in UrlForms }
+
+\* The parts are made disjoint (a case is run once): a slice keeps what no earlier part has.
+V(S) == {c \in S : ValidCase(c)}
+PCore == V(Core)
+PTime == {c \in V(TimeSlice) : ~InCore(c)}
+PHdr == V(HdrSlice)
+PScope == {c \in V(ScopeSlice) : ~InCore(c)}
+PChal == {c \in V(ChalSlice) : ~InCore(c) /\ ~(c.hdr = "bearer" /\ c.ver = "ok" /\ c.url \in UrlCore)}   \* the latter are in ScopeSlice
+CaseParts == <<PCore, PTime, PHdr, PScope, PChal>>
+NCases == Cardinality(PCore) + Cardinality(PTime) + Cardinality(PHdr) + Cardinality(PScope) + Cardinality(PChal)
+\* nothing is lost and nothing is run twice
+PartsOK == /\ \A c \in V(TimeSlice) \cup V(ScopeSlice) \cup V(ChalSlice) : InCore(c) => c \in PCore
+           /\ \A c \in V(ChalSlice) : c \in PChal \/ c \in PCore \/ c \in PScope
+           /\ \A i, j \in 2..5 : i < j => \A c \in CaseParts[j] : c \notin CaseParts[i]
+           /\ \A i \in 2..5 : \A c \in CaseParts[i] : ~InCore(c)
+
+DesignOK == \A i \in 1..5 : \A c \in CaseParts[i] : Holds(c, Expected(c))
 \* vacuity witnesses
-SomeAdmitted == \E c \in CaseSet : Admit(c)
-SomeEach == \A st \in {400, 401, 403, 500} : \E c \in CaseSet : Expected(c).status = st
+SomeAdmitted == \E c \in PCore : Admit(c)
+SomeEach == \A st \in {400, 401, 403, 500} : \E c \in PCore : Expected(c).status = st
+\* the table of the time dimension is not degenerate: each skew class both admits and refuses some expiration, and the
+\* classes beyond the Duration range are admitted (ahead) / refused (ago) under every skew
+TimeOK == /\ \A s \in Skews : /\ \E c \in TimeSlice : c.skew = s /\ Expired(c)
+                              /\ \E c \in TimeSlice : c.skew = s /\ c.exp # "zero" /\ ~Expired(c)
+          /\ \A c \in TimeSlice : /\ c.exp \in {"q5ahead", "agesahead"} => ~Expired(c)
+                                  /\ c.exp \in {"q5ago", "agesago"} => Expired(c)
+\* the unsettled header shapes are admitted by the code in some cases and refused in others
+UnsettledBoth == /\ \E c \in PHdr : Unsettled(c.hdr) /\ Expected(c).ran
+                 /\ \E c \in PHdr : Unsettled(c.hdr) /\ Rest(c) /\ ~Expected(c).ran
 
-SetSeq(S) == SetToSeq(S)
-CaseJson(c) == [hdr |-> c.hdr, ver |-> c.ver, req |-> SetSeq(c.req), granted |-> SetSeq(c.granted), dup |-> c.dup, exp |-> c.exp,
-                skew |-> c.skew, allow |-> c.allow, url |-> c.url, opts |-> c.opts]
-Export == ndJsonSerialize("cases.ndjson", SetSeq({CaseJson(c) : c \in CaseSet}))
+\* late: the class's verdict on "Expiration + skew before now"; the harness uses it ONLY to check that the representative it
+\* drew lies in the class (exact integer arithmetic on the concrete values; a mismatch is a machinery error, not a verdict)
+\* part: which part of the case space the case belongs to (the slices are run on more representatives than the core)
+PartName == <<"core", "time", "hdr", "scope", "chal">>
+CaseJson(c, p) == [part |-> p, hdr |-> c.hdr, ver |-> c.ver, req |-> SetToSeq(c.req), rform |-> c.rform, granted |-> SetToSeq(c.granted), gform |-> c.gform,
+                exp |-> c.exp, skew |-> c.skew, allow |-> c.allow, url |-> c.url, opts |-> c.opts, late |-> Expired(c)]
+PartSeq(i) == SetToSeq({CaseJson(c, PartName[i]) : c \in CaseParts[i]})
+Export == ndJsonSerialize("cases.ndjson", PartSeq(1) \o PartSeq(2) \o PartSeq(3) \o PartSeq(4) \o PartSeq(5))
 
+ASSUME PartsOK
 ASSUME DesignOK
-ASSUME SomeAdmitted /\ SomeEach
-ASSUME PrintT(ToJson([cases |-> Cardinality(CaseSet)]))
+ASSUME SomeAdmitted /\ SomeEach /\ TimeOK /\ UnsettledBoth
+ASSUME PrintT(ToJson([cases |-> NCases, core |-> Cardinality(PCore), time |-> Cardinality(PTime), hdr |-> Cardinality(PHdr),
+                      scope |-> Cardinality(PScope), chal |-> Cardinality(PChal)]))
 ASSUME Export
 =============================================================================
